@@ -6,6 +6,7 @@ import Tw.Proofs.ConnSeq
 import Tw.Proofs.ConnWire6
 import Tw.Proofs.ConnWire7
 import Tw.Proofs.ConnTok7
+import Tw.Proofs.RsConn
 
 /-!
 # C04 — everything the connection layer sends is well-formed; bad sends are refused
@@ -311,5 +312,24 @@ def demo7 : List (Tw.Conn7.Env × Tw.Conn7.Op) :=
    ({ now := 1500001 }, .disconnect [])]
 
 example : Tw.Conn7.runPermitted .new demo7 = true := by decide +kernel
+
+/-! ## Function-level tie: `can_fit_chunk` / `chunk_header_size`, translated by `tools/rs2lean`
+
+`Tw.Gen.RsConn.*` is regenerated from `net/src/connection.rs` / `protocol.rs` on every run. -/
+
+theorem tie_rs_chunk_header_size (vital : Bool) :
+    Tw.Gen.RsConn.chunk_header_size vital = .ok (chunkHeaderSize vital) :=
+  Tw.RsConn.chunk_header_size_eq vital
+
+/-- representation map: the model's `PacketContents` with `numChunks = num_chunks` and
+`size = data.len()`; the `usize` sums do not overflow for lengths that exist -/
+theorem tie_rs_can_fit_chunk (p : Tw.Gen.RsConn.PacketContents) (data : List UInt8) (vital : Bool)
+    (q : PacketContents) (hn : q.numChunks = p.num_chunks) (hs : q.size = p.data.length)
+    (hlen : p.data.length + 3 + data.length < 2 ^ 64) :
+    Tw.Gen.RsConn.PacketContents.can_fit_chunk p data vital = .ok (q.canFit data.length vital) :=
+  Tw.RsConn.can_fit_chunk_eq p data vital q hn hs hlen
+
+example : (PacketContents.empty).numChunks = (⟨0, []⟩ : Tw.Gen.RsConn.PacketContents).num_chunks ∧
+    (PacketContents.empty).size = (⟨0, []⟩ : Tw.Gen.RsConn.PacketContents).data.length := by decide
 
 end Tw.Props.C04
